@@ -171,7 +171,7 @@ def quad_family(repo, res):
     ["C09"],
     "integral_generator.extract_dtype, interpreted on all combinations of operand types: an intermediate variable is declared "
     "with the join (BOOL < INT < REAL < SCALAR) of its value operands - both branches of a conditional, all operands of an "
-    "arithmetic operator - except Condition (BOOL) and Real/Imag (REAL). A narrower declaration (`double sv = cond ? 1.0 : c[0]`) "
+    "arithmetic operator; REAL where that join is INT - except Condition (BOOL) and Real/Imag (REAL). A narrower declaration (`double sv = cond ? 1.0 : c[0]`) "
     "silently drops the imaginary part in complex kernels",
     min_instances=40,
 )
@@ -210,6 +210,8 @@ def dtype_merge(repo, res):
                 want = special
             else:
                 want = max(dts, key=order.index)
+            if want == "DataType.INT":
+                want = "DataType.REAL"   # a value is never an `int` variable: C would divide it as an integer (see PARTITION-DTYPE / INT-DIVISION)
             if got != want:
                 res.fail(key, f"a {kind} node with operand types {[d.split('.')[1] for d in dts]} is declared {str(got).split('.')[-1]}, expected {want.split('.')[1]}: "
                          + ("the narrower type drops the imaginary part / fraction of an operand" if (str(got) not in order or order.index(str(got)) < order.index(want))
